@@ -1,6 +1,6 @@
 (* C09: the minimiser iterator emits exactly the maximal runs of same-minimiser windows. *)
 From Coq Require Import NArith List.
-From KT Require Import Gen.Generated Gen.Alphabet Gen.GeneratedFacts Model.Kmer Proof.MinAbs Proof.MinSpec Proof.MinConc.
+From KT Require Import Gen.Generated Gen.Alphabet Gen.GeneratedFacts Model.Kmer Proof.MinAbs Proof.MinSpec Proof.MinConc Proof.MinExt.
 Import ListNotations.
 Open Scope N_scope.
 
@@ -14,6 +14,16 @@ Proof. intros w m s H1 H2. exact (mg_run_grp nt4m w m H1 H2 s). Qed.
 Theorem C09_alphabet : forall b, 4 <= b < 256 -> nt4m b = digit_of_letter b.
 Proof. exact (table_ok_spec table_minimiser table_minimiser_ok). Qed.
 
+(* the two together: on the property's byte domain the iterator emits the grouped window minima computed
+   over the property's own alphabet *)
+Theorem C09_runs_exact_letters :
+  forall w m s, (1 <= m <= w)%nat -> (m <= 31)%nat -> Forall (fun b => 4 <= b < 256) s ->
+  mg_run nt4m w m s = grp_go digit_of_letter w m None [] s.
+Proof.
+  intros w m s H1 H2 Hs. rewrite (mg_run_grp nt4m w m H1 H2 s).
+  exact (grp_go_ext_bytes nt4m digit_of_letter w m (fun b => 4 <= b < 256) s Hs C09_alphabet).
+Qed.
+
 Example C09_example :
   mg_run nt4m 8 5 [65;84;71;67;71;65;84;65;84;67;71;78;84;65;71;71;67;71;84;67;71;65;84;71;71;65]
   = [(217, 0%nat, 8%nat); (205, 1%nat, 11%nat); (101, 12%nat, 22%nat); (216, 15%nat, 26%nat)].
@@ -21,3 +31,4 @@ Proof. vm_compute. reflexivity. Qed.
 
 Print Assumptions C09_runs_exact.
 Print Assumptions C09_alphabet.
+Print Assumptions C09_runs_exact_letters.
